@@ -455,6 +455,15 @@ func c11(tier string) int {
 	}
 	recC("", 0)
 	cps = append(cps, real4, realExt, real6k, real4k)
+	// Checkpoints around every power-of-two length up to 1 MiB (a size cap or
+	// a fixed buffer cuts at one of them): a really signed checkpoint padded
+	// to exactly that many bytes.
+	for k := 13; k <= 20; k++ {
+		for _, d := range []int{-1, 0, 1} {
+			big, _ := gen.Get(la, u.Main, 7, fmt.Sprintf("pad%d", (1<<k)+d))
+			cps = append(cps, big)
+		}
+	}
 	run.Set("roundtrip_old_sizes", len(olds))
 	run.Set("roundtrip_proofs", len(proofs))
 	run.Set("roundtrip_checkpoints", len(cps))
@@ -617,7 +626,7 @@ func c11(tier string) int {
 	run.Set("evaluations", evals)
 	run.Set("distinct_nontrivial", c11Distinct())
 	run.Set("exhaustive", true)
-	run.Set("rule", fmt.Sprintf("generator side: old sizes {0,1,9,10,99,2^32-1,2^32,2^63-1,2^63,2^64-1} x proofs (every length 0..64 of 1-, 32-, 33-, 63- and 64-byte hashes; all lists of <= %d hashes with lengths {1,2,3,31,32,33,63,64} x 4 boundary fillings) x checkpoint bytes (all strings of <= 4 chunks over {x, LF, LFLF, CRLF, 0xff, a signature-like line, empty} + real checkpoints), written by the harness writer and in the shape of cmd/feedbastion; parseBody must return exactly what was written; Proof.Marshal/Unmarshal over every proof list incl. the empty one, into a fresh receiver and into one reused receiver. Refusal side: ALL strings of <= %d tokens over a 12-token alphabet and the complete 1-edit neighbourhood (every prefix, single-byte deletion, insertion of 18 tokens at every position, every single-bit flip) of four valid bodies, judged by a reference parser with classes accept / must-refuse (no well-formed old-size line, proof line not base64, ends before the blank separator) / unspecified; refusals must return zero values. Retention: the result returned for one body is compared again after the next body was parsed. Delivery: every body above is also read one byte at a time and in 3-byte pieces, whole and in pieces with the final bytes arriving together with io.EOF (4095/4096-byte pieces when longer than 4096 bytes), and eight valid bodies (incl. 64 x 64-byte and 64 x 32-byte proofs, 4096- and 6000-byte checkpoints) additionally with one short read at every offset and, when <= 600 bytes, two short reads at every pair of offsets; the reading must not depend on it. distinct_nontrivial = number of distinct bodies/lists evaluated (token strings that concatenate to the same bytes are counted once)", maxList, L))
+	run.Set("rule", fmt.Sprintf("generator side: old sizes {0,1,9,10,99,2^32-1,2^32,2^63-1,2^63,2^64-1} x proofs (every length 0..64 of 1-, 32-, 33-, 63- and 64-byte hashes; all lists of <= %d hashes with lengths {1,2,3,31,32,33,63,64} x 4 boundary fillings) x checkpoint bytes (all strings of <= 4 chunks over {x, LF, LFLF, CRLF, 0xff, a signature-like line, empty} + real checkpoints, incl. signed checkpoints of exactly 2^k-1, 2^k and 2^k+1 bytes for k = 13..20), written by the harness writer and in the shape of cmd/feedbastion; parseBody must return exactly what was written; Proof.Marshal/Unmarshal over every proof list incl. the empty one, into a fresh receiver and into one reused receiver. Refusal side: ALL strings of <= %d tokens over a 12-token alphabet and the complete 1-edit neighbourhood (every prefix, single-byte deletion, insertion of 18 tokens at every position, every single-bit flip) of four valid bodies, judged by a reference parser with classes accept / must-refuse (no well-formed old-size line, proof line not base64, ends before the blank separator) / unspecified; refusals must return zero values. Retention: the result returned for one body is compared again after the next body was parsed. Delivery: every body above is also read one byte at a time and in 3-byte pieces, whole and in pieces with the final bytes arriving together with io.EOF (4095/4096-byte pieces when longer than 4096 bytes), and eight valid bodies (incl. 64 x 64-byte and 64 x 32-byte proofs, 4096- and 6000-byte checkpoints) additionally with one short read at every offset and, when <= 600 bytes, two short reads at every pair of offsets; the reading must not depend on it. distinct_nontrivial = number of distinct bodies/lists evaluated (token strings that concatenate to the same bytes are counted once)", maxList, L))
 	run.Assumption("leniencies the property does not name (CRLF line ends, leading zeros, non-canonical base64 padding bits, lines longer than 4096 bytes) are classified 'unspecified': executed, required to return zero values on refusal, otherwise not judged")
 	return run.Finish()
 }
